@@ -421,7 +421,11 @@ class World:
     _VoigtRejected = _VoigtOk
 
     def _SavePostfix(self, act):
-        self.minerals[act["m"]].save(self.file(act["f"]), postfix=act["pf"])
+        # the postfix is handed over by keyword or positionally (same call): alternate by the postfix itself
+        if len(act["pf"]) % 2 == 0:
+            self.minerals[act["m"]].save(self.file(act["f"]), act["pf"])
+        else:
+            self.minerals[act["m"]].save(self.file(act["f"]), postfix=act["pf"])
 
     def _SaveWholeFile(self, act):
         self.minerals[act["m"]].save(self.file(act["f"]))
@@ -459,13 +463,26 @@ class World:
 
     def _Load(self, act):
         k = act["k"]
-        self.minerals[act["m"]].load(self.file(act["f"]), postfix=None if k == "none" else k)
+        if k == "none":           # whole file: no postfix argument at all / an explicit None, alternating
+            if len(act["f"]) % 2 == 0 or act["m"] in ("b", "d"):
+                self.minerals[act["m"]].load(self.file(act["f"]))
+            else:
+                self.minerals[act["m"]].load(self.file(act["f"]), postfix=None)
+        elif len(k) % 2 == 0:     # keyword / positional
+            self.minerals[act["m"]].load(self.file(act["f"]), k)
+        else:
+            self.minerals[act["m"]].load(self.file(act["f"]), postfix=k)
         self.refresh_fids(act["m"])
 
     def _FromFile(self, act):
         k = act["k"]
         name = act["m"]
-        self.minerals[name] = self.pydrex.Mineral.from_file(self.file(act["f"]), postfix=None if k == "none" else k)
+        if k == "none":
+            self.minerals[name] = self.pydrex.Mineral.from_file(self.file(act["f"])) if name in ("a", "c") else self.pydrex.Mineral.from_file(self.file(act["f"]), postfix=None)
+        elif len(k) % 2 == 1:
+            self.minerals[name] = self.pydrex.Mineral.from_file(self.file(act["f"]), k)
+        else:
+            self.minerals[name] = self.pydrex.Mineral.from_file(self.file(act["f"]), postfix=k)
         self.seed[name] = None
         self.F[name] = np.eye(3)
         self.Fexp[name] = np.eye(3)
